@@ -517,7 +517,7 @@ func (ft *FT) frameTargets() (byKey map[string][]Term, whole map[string]bool, al
 }
 
 func privateKey(k string) bool {
-	return strings.HasPrefix(k, "L!") || strings.HasPrefix(k, "D!") || strings.HasPrefix(k, "VIS!") || k == "$next" || k == "HELD" || k == "CLOSED" || strings.HasPrefix(k, "G!") || k == "$clock"
+	return strings.HasPrefix(k, "L!") || strings.HasPrefix(k, "D!") || strings.HasPrefix(k, "VIS!") || k == "$next" || k == "HELD" || k == "CLOSED" || strings.HasPrefix(k, "G!") || k == "$clock" || k == "$panicking"
 }
 
 // frameFormula: key k differs from its entry version only at declared or fresh objects.
